@@ -23,7 +23,7 @@ pub enum Prop {
 }
 
 #[derive(Clone, PartialEq)]
-struct Snap {
+pub struct Snap {
     squares: [Option<Piece>; 64],
     kinds: [u64; 12],
     raw_kinds: [u64; 6],
@@ -787,6 +787,76 @@ pub fn walk(sh: &Shared, root: &Pos, rng: &mut Rng, n_ops: usize, max_depth: usi
     }
 }
 
+/// C03: transposition pairs built on purpose. From `root`, two moves of the side to move (a, b) and
+/// two replies (x, y) are played as a-x-b-y and as b-y-a-x (and a-y-b-x); whenever both orders are legal
+/// and the rules say they reach the same position, the engine's keys must be equal.
+fn transposition_pairs(sh: &Shared, root: &Pos, rng: &mut Rng, l: &mut Local) {
+    let legal = root.legal_moves();
+    if legal.len() < 2 {
+        return;
+    }
+    let root_fen = root.to_fen(EpConv::Always);
+    for _ in 0..6 {
+        let a = *rng.pick(&legal);
+        let b = *rng.pick(&legal);
+        if a == b {
+            continue;
+        }
+        let pa = root.make(a);
+        let replies = pa.legal_moves();
+        if replies.len() < 2 {
+            continue;
+        }
+        let x = *rng.pick(&replies);
+        let y = *rng.pick(&replies);
+        let orders: [[Mv; 4]; 2] = [[a, x, b, y], [b, y, a, x]];
+        let mut ends: Vec<(Pos, u64, Vec<String>)> = vec![];
+        for ord in orders.iter() {
+            let Some(mut g) = game_from_pos(root) else { return };
+            let mut p = root.clone();
+            let mut ok = true;
+            let mut played = vec![];
+            for m in ord.iter() {
+                // the same (from, to, promo) must be legal at this point of this order
+                let Some(mm) = p.legal_moves().into_iter().find(|z| z.from == m.from && z.to == m.to && z.promo == m.promo) else {
+                    ok = false;
+                    break;
+                };
+                let Some(e) = find_engine_move(&g, mm) else {
+                    ok = false;
+                    break;
+                };
+                g.make_move(e);
+                p = p.make(mm);
+                played.push(mm.uci());
+            }
+            if ok {
+                ends.push((p, g.zobrist.0, played));
+            }
+        }
+        if ends.len() == 2 {
+            let same_position = {
+                let (p1, p2) = (&ends[0].0, &ends[1].0);
+                p1.b == p2.b && p1.stm == p2.stm && p1.cr == p2.cr && p1.ep_field(EpConv::Adjacent) == p2.ep_field(EpConv::Adjacent) && p1.ep_field(EpConv::Legal) == p2.ep_field(EpConv::Legal) && p1.ep == p2.ep
+            };
+            if same_position {
+                l.evaluations += 1;
+                l.feat("transposition_pairs_compared");
+                if ends[0].1 != ends[1].1 {
+                    sh.report.violation(Violation {
+                        monitor: "c03".into(),
+                        signature: "c03.transposition".into(),
+                        what: format!("from '{root_fen}' the move orders {:?} and {:?} reach the same position with keys {:#018x} and {:#018x}", ends[0].2, ends[1].2, ends[0].1, ends[1].1),
+                        replay_args: vec!["c03".into(), "--fen".into(), root_fen.clone(), "--ops".into(), ends[0].2.iter().map(|m| format!("m:{m}")).collect::<Vec<_>>().join(",")],
+                        detail: J::Null,
+                    });
+                    return;
+                }
+            }
+        }
+    }
+}
+
 pub fn run(prop: Prop, args: &Args, seed: u64, tier: &str, report: &Report) -> String {
     let rule = match prop {
         Prop::C02 => "histories of make / null-move / take-back operations (nesting <= 40) from corpus, playout and synthesised roots; every field compared with the reference after each operation and with the pre-move snapshot after each take-back; distinct = distinct FEN reached by a make",
@@ -906,6 +976,9 @@ pub fn run(prop: Prop, args: &Args, seed: u64, tier: &str, report: &Report) -> S
             };
             let n_ops = *rng.pick(&[50usize, 100, 200, 400]);
             let max_depth = *rng.pick(&[6usize, 12, 24, 40]);
+            if prop == Prop::C03 && w % 4 == 0 {
+                transposition_pairs(&sh, &root, &mut rng, &mut l);
+            }
             walk(&sh, &root, &mut rng, n_ops, max_depth, &mut l, None);
             if w % 200 == 0 {
                 report.merge_local(&mut l);
